@@ -6,6 +6,9 @@ pub mod formats;
 pub mod model;
 pub mod report;
 pub mod rng;
+pub mod scen;
+pub mod scenengine;
+pub mod scengen;
 pub mod state;
 pub mod vmcase;
 pub mod vmengine;
